@@ -8,6 +8,8 @@ fn main() {
     let args: Vec<String> = std::env::args().skip(1).collect();
     let verbose = args.iter().any(|a| a == "-v");
     let all_versions = args.iter().any(|a| a == "--all-versions");
+    let reverse = args.iter().any(|a| a == "--reverse");
+    let sweep = args.iter().any(|a| a == "--sweep");
     let filter: Option<&String> = args.iter().find(|a| !a.starts_with('-'));
     let list = cf::scenarios();
     let (mut pass, mut unsup, mut fail) = (0, 0, 0);
@@ -28,8 +30,17 @@ fn main() {
                     continue;
                 }
             }
-            let r = cf::run_scenario_report_at(i, *v);
-            let tag = format!("{:50} @{}", name, v);
+            let mut variants = vec![cf::Variant { version: *v, reverse_final: reverse, ..cf::Variant::default() }];
+            if sweep {
+                for (k, policy) in [simbus::Policy::Random, simbus::Policy::RoundRobin, simbus::Policy::Starve, simbus::Policy::LowestFirst, simbus::Policy::HighestFirst].into_iter().enumerate() {
+                    for rf in [false, true] {
+                        variants.push(cf::Variant { version: *v, reverse_final: rf, sched_seed: 7 + k as u64, policy });
+                    }
+                }
+            }
+            for variant in variants {
+            let r = cf::run_scenario_variant(i, variant);
+            let tag = format!("{:50} @{} {:?}/{}{}", name, v, variant.policy, variant.sched_seed, if variant.reverse_final { " rev" } else { "" });
             match (&r.outcome, &r.unsupported) {
                 (Outcome::Pass(_), None) => {
                     pass += 1;
@@ -50,7 +61,14 @@ fn main() {
                     println!("    {}", h);
                 }
             }
+            }
         }
+    }
+    if args.iter().any(|a| a == "--summary") {
+        let (full, total, unsupported) = cf::supported_summary();
+        println!("supported_summary: {} of {} fully replayed; unsupported: {:?}", full, total, unsupported);
+        println!("run_scenario(0): {:?}", cf::run_scenario(0));
+        print!("{}", cf::render_scenario(0));
     }
     println!("fully replayed {} / unsupported {} / failing {} (of {} scenarios)", pass, unsup, fail, list.len());
 }
